@@ -705,9 +705,9 @@ func (vc *FnVC) structAppend(st *State, s, src *Val, elem types.Type, rt types.T
 		old := vc.get(st, lf.key)
 		nf := vc.freshName(shortKey(lf.key) + "~app")
 		vc.declare(nf, "(Array Int "+lf.sort+")")
-		e := lf.unref("r")                 // candidate element reference
-		eb := sx(efn+"~b", e)              // its base
-		ei := sx(efn+"~i", e)              // its index
+		e := lf.unref("r")    // candidate element reference
+		eb := sx(efn+"~b", e) // its base
+		ei := sx(efn+"~i", e) // its index
 		isEl := sx("=", lf.ref(sx(efn, eb, ei)), "r")
 		// in place: elements start..start+n of the old base take the source elements
 		tgt1 := smtAnd(isEl, sx("=", eb, sx("s.base", s.S)), sx("<=", start, ei), sx("<", ei, sx("+", start, n)))
